@@ -60,6 +60,7 @@ func init() {
 		Explanation: "Decides: in RayIntersections the per-segment pre-filter hull is a pure Min/Max tree over start, end and every decoded control point (arc: centre∓max(rx,ry)), so no segment the ray can cross is skipped; Contains returns fillRule.Fills(n) for n from Windings(x, y); Windings/Crossings visit every element of Split(); Fills agrees with the rule definitions. Since batch 11 also: over all paths of the hit loops of windings and Crossings, a counted hit is non-tangent or a vertex whose sides agree, an end-point hit is always remembered or compared, overlapping hits have no effect; no direction is taken from a cubic derivative that can be zero. NOT decided: the intersection arithmetic of the primitives, CCW's index logic, Filling's nesting logic.",
 		Run: func(c *core.Ctx, r *core.Report) {
 			E11ReversedFrame(c, r)
+			E9TangentBothWays(c, r)
 			E3RayImplicitClose(c, r)
 			E3RayHull(c, r)
 			E3EllipseParamAngle(c, r)
@@ -121,6 +122,7 @@ func init() {
 		Run: func(c *core.Ctx, r *core.Report) {
 			E11RelativeBeforeUse(c, r)
 			E11ImplicitCommand(c, r)
+			E2SerialiseEveryCommand(c, r)
 			E4ParserGuards(c, r)
 			E4ParserProgress(c, r)
 			E11SVGSmooth(c, r)
@@ -139,6 +141,7 @@ func init() {
 		Run: func(c *core.Ctx, r *core.Report) {
 			E4ZeroGuardIsDivisor(c, r, "text")
 			E4ForcedBreakForgets(c, r)
+			E11SumNotOverwritten(c, r)
 			E4LinebreakGuards(c, r)
 			E4AllocCoversIndex(c, r)
 			E4ForcedBreakDeactivates(c, r)
@@ -283,6 +286,7 @@ func init() {
 		Run: func(c *core.Ctx, r *core.Report) {
 			E10Flatness(c, r)
 			E11RemapIffSplit(c, r)
+			E11FactorFromStep(c, r)
 			E2PenReread(c, r)
 			E4StepProgress(c, r)
 			E3ArcAngleFrame(c, r)
@@ -296,6 +300,7 @@ func init() {
 		Explanation: "Decides one clause only, 'closed subpaths are joined, not capped' (and its dual: open sub-paths are capped iff stroking): in (*Path).offset the closed flag is set exactly by a Close command, every Capper call is control-dependent on !closed && strokeOpen and placed at the two ends, the Joiner wraps around from the last to the first segment when closed, the closed branch closes both offset curves, and Stroke/Offset pass strokeOpen true/false; plus the angle-unit consistency of the arc rotation passed to ArcTo (E8, whole package). NOT decided: every distance clause (w/2 neighbourhood, miter limit, inner-bend repair, offset direction).",
 		Run: func(c *core.Ctx, r *core.Report) {
 			E11SignedMagnitude(c, r)
+			E11StrokeSettleRule(c, r)
 			E11JunctionPairing(c, r)
 			E4RadiiNonzero(c, r)
 			E11SubpathLoops(c, r)
@@ -308,6 +313,7 @@ func init() {
 		Explanation: "Decides two structural clauses: (1) 'independently for every subpath': in Dash the only variable carried across iterations of the sub-path loop is the output accumulator and every iteration restarts from (i0, pos0); (2) pieces cut by SplitAt are made relative to the previous cut in every curve case (E11.cut-carried), read the sub-path's own data (E2 cursor domain) and keep the arc rotation in consistent units (E8). NOT decided: every arithmetic clause (phase, period, offsets, arc-length inversion, piece order, joining of closed sub-paths, degenerate patterns). Argument mutation by Dash is decided under C10/C15.",
 		Run: func(c *core.Ctx, r *core.Report) {
 			E11CutInterval(c, r)
+			E1DashInputs(c, r)
 			E11DashPairTogether(c, r)
 			E11DashPeriod(c, r)
 			E11DashOffsetRange(c, r)
@@ -369,6 +375,7 @@ func init() {
 		Explanation: "Decides two structural clauses. (1) the structural part of 'lines are stacked monotonically by their line heights … Text.Bounds/Heights enclose all spans': a line's top/ascent/descent/bottom are pure component-wise math.Max folds over its spans (each accumulator folded with the same-named component of FontFace.heights(), inline objects' ascent/descent feeding the right pair), and Text.Heights combines the first line's ascent with the last line's descent. (2) a necessary condition of 'right-aligned lines end at the width, centred lines are centred, no line extends beyond the box unless Overflows is reported': the width the line breaker records for a feasible break includes the width of the penalty (the hyphen shown at the break), by the same guarded addition the fitting computation uses. NOT decided: everything else — that every character appears exactly once and in order, glyph/byte index bookkeeping, glue stretching, alignment, bidi reordering, Overflows, which are arithmetic over runtime arrays with no structural clause.",
 		Run: func(c *core.Ctx, r *core.Report) {
 			E3TextBoundsFold(c, r)
+			E3LineHeightsEverySpan(c, r)
 			E3LineHeights(c, r)
 			E11BreakWidth(c, r)
 			E11SpanShift(c, r)
